@@ -558,4 +558,68 @@ def run(chk: Check, ctx: Any) -> None:
     _rewrite_rules(chk, ctx)
     from .smap_roundtrip import smap_rule
     smap_rule(chk, ctx, "C14-R6")
+    _optional_int_truthiness(chk, ctx, "C14-R7")
 
+
+
+
+_OPT_INT = ("int | None", "None | int", "Optional[int]", "typing.Optional[int]")
+_SELF_TEST = """
+class E:
+    return_addr: int | None
+def f(m: E, n: int | None):
+    if m.return_addr:
+        pass
+    if n is not None and not n:
+        pass
+    x = 1 if m.return_addr is None else 2
+"""
+
+
+def _truthiness_sites(trees: list[tuple[Any, ast.AST]]) -> tuple[list[tuple[Any, ast.AST, str]], int]:
+    names: set[str] = set()
+    for _where, t in trees:
+        for n in ast.walk(t):
+            if isinstance(n, ast.AnnAssign) and norm(n.annotation) in _OPT_INT:
+                names.add(norm(n.target).split(".")[-1])
+            if isinstance(n, (ast.FunctionDef, ast.AsyncFunctionDef)):
+                for a in n.args.posonlyargs + n.args.args + n.args.kwonlyargs:
+                    if a.annotation is not None and norm(a.annotation) in _OPT_INT:
+                        names.add(a.arg)
+    sites = []
+    for where, t in trees:
+        for n in ast.walk(t):
+            tests: list[ast.AST] = []
+            if isinstance(n, (ast.If, ast.While, ast.IfExp, ast.Assert)):
+                tests.append(n.test)
+            elif isinstance(n, ast.BoolOp):
+                tests.extend(n.values)
+            elif isinstance(n, ast.UnaryOp) and isinstance(n.op, ast.Not):
+                tests.append(n.operand)
+            elif isinstance(n, ast.comprehension):
+                tests.extend(n.ifs)
+            for x in tests:
+                if isinstance(x, (ast.Name, ast.Attribute)) and norm(x).split(".")[-1] in names:
+                    sites.append((where, x, norm(x)))
+    return sites, len(names)
+
+
+def _optional_int_truthiness(chk: Check, ctx: Any, rule: str) -> None:
+    """An offset or number that may be absent (`int | None`) is tested with `is None`: a truth test also skips the value 0."""
+    chk.rule(rule, "a value annotated `int | None` (a return address, an op number) is never tested by truthiness: 0 is a value, only None means absent")
+    repo = ctx.repo
+    st, _n = _truthiness_sites([(None, ast.parse(_SELF_TEST))])
+    if len(st) != 2:
+        raise AnalysisError(f"{rule}: detector self-test found {len(st)} sites in its example, expected 2")
+    trees = [(m, m.tree) for m in repo.modules.values() if not m.name.startswith("explorerscript.antlr")]
+    sites, n_names = _truthiness_sites(trees)
+    seen = set()
+    for m, x, text in sites:
+        key = f"{m.name}:{text}:{getattr(x, 'lineno', 0)}"
+        if (m.name, text) in seen:
+            continue
+        seen.add((m.name, text))
+        chk.violation(rule, f"{m.name}:{text}", (m.path_rel if hasattr(m, "path_rel") else m.name.replace(".", "/") + ".py", getattr(x, "lineno", 0)),
+                      f"`{text}` is `int | None` and is tested by truthiness: the value 0 is treated like None (for a source map: the op with offset 0)")
+    chk.hold(rule, "scan", repo.func("explorerscript.source_map:SourceMap.rewrite_offsets"), f"{n_names} names annotated int | None, none tested by truthiness", facts={"names": n_names})
+    chk.floor(rule, "names annotated int | None", n_names, 3)
